@@ -284,6 +284,7 @@ class CheckC16(core.Check):
         switches = sum(1 for i in range(1, len(order)) if order[i][1] != order[i - 1][1])
         r.stats["thread_switches_observed"] += switches
         r.keys.add(("interleaving", sig))
+        r.sets.setdefault("interleaving_signatures", set()).add(sig)
         r.keys.add(case.info["key"] + (case.id,))
         r.nontrivial = nconc > 0 and ooo > 0
         return r
